@@ -68,11 +68,16 @@ pub struct C14Checker {
     last_repair: String,
     ever_faulted: bool,
     clean: HashMap<String, Vec<(String, Res)>>,
+    /// per round: the sources of the two expressions that were set successfully
+    srcs: HashMap<String, (Option<String>, Option<String>)>,
 }
+
+/// expression with separator-bearing numbers used in the second part of every probe round
+const NUMBERS_EXPR: usize = 31;
 
 impl C14Checker {
     pub fn new(_trace: &Trace, _session: usize) -> C14Checker {
-        C14Checker { rounds: HashMap::new(), outstanding: vec![], last_fault: "none".into(), last_repair: "none".into(), ever_faulted: false, clean: HashMap::new() }
+        C14Checker { rounds: HashMap::new(), outstanding: vec![], last_fault: "none".into(), last_repair: "none".into(), ever_faulted: false, clean: HashMap::new(), srcs: HashMap::new() }
     }
 
     /// O2: the call that consumed faulted bytes of a MUST-ERR fault must fail and name the file
@@ -134,11 +139,30 @@ impl C14Checker {
         ];
         let cfg_key = ["Language", "SpeechStyle", "BrailleCode"].iter().map(|n| s.call(&Op::GetPref(n.to_string())).short()).collect::<Vec<_>>().join(",");
         let mut results = Vec::new();
+        let mut src1 = None;
         for op in ops {
             let res = s.call(&op);
             self.check_o2(s, &op, &res);
+            if matches!(op, Op::SetMathml(_)) && res.is_ok() {
+                src1 = s.cur_src.clone();
+            }
             results.push((op.name().to_string(), norm(&res)));
         }
+        // a second, short part of the round on an expression with separator-bearing numbers (the derived separator
+        // preferences depend on Language and on what was read from prefs.yaml), and the full preference snapshot
+        let mut src2 = None;
+        for op in [Op::SetMathml(ExprRef::Pool(NUMBERS_EXPR)), Op::Speech, Op::Braille(IdRef::Empty)] {
+            let res = s.call(&op);
+            self.check_o2(s, &op, &res);
+            if matches!(op, Op::SetMathml(_)) && res.is_ok() {
+                src2 = s.cur_src.clone();
+            }
+            results.push((format!("{} (numbers)", op.name()), norm(&res)));
+        }
+        let names = pref_names(&s.ctx.base);
+        let snapshot: Vec<String> = s.read_prefs(&names).into_iter().filter(|(n, _)| n != "CheckRuleFiles").map(|(n, v)| format!("{}={}", n, v)).collect();
+        results.push(("preference snapshot".to_string(), Res::Ok(snapshot.join("\n"))));
+        self.srcs.insert(tag.to_string(), (src1, src2));
         // O3: while only never-loadable content faults are outstanding, an Ok output must be the output the same
         // configuration and expression gave before any fault (a half-loaded table must never speak).
         // Only outputs that do not depend on a failed earlier call of the round are compared.
@@ -150,12 +174,14 @@ impl C14Checker {
                 let set_ok = results.first().map(|(_, r)| r.is_ok()).unwrap_or(false);
                 let mut nav_ok = set_ok;
                 for (i, (name, res)) in results.iter().enumerate() {
+                    let set2_ok = results.get(7).map(|(_, r)| r.is_ok()).unwrap_or(false);
                     let independent = match i {
-                        0 => true,
+                        0 | 7 | 10 => true,
                         1..=3 => set_ok,
+                        8 | 9 => set2_ok,
                         _ => nav_ok,
                     };
-                    if i >= 4 && !res.is_ok() {
+                    if (4..7).contains(&i) && !res.is_ok() {
                         nav_ok = false;
                     }
                     if !independent {
@@ -199,7 +225,8 @@ impl C14Checker {
 
     fn expect_ref(&mut self, s: &mut Sess, tag: &str, rules_dir: &str) {
         let Some(round) = self.rounds.get(tag).cloned() else { return };
-        let Some(src) = s.cur_src.clone() else {
+        let (src1, src2) = self.srcs.get(tag).cloned().unwrap_or((None, None));
+        let Some(src) = src1 else {
             // set_mathml of the round failed: compare nothing but report (after a repair it must not fail)
             s.violation(
                 "recovery-incomplete",
@@ -227,6 +254,31 @@ impl C14Checker {
                     return;
                 }
             }
+        }
+        // the numbers part of the round against its own fresh session
+        if let Some(src2) = src2 {
+            let r2 = reference_outputs(s, &fs, rules_dir, &prefs, &src2);
+            let expected2 = [(7usize, "set_mathml (numbers)", norm(&r2.set_mathml)), (8, "get_spoken_text (numbers)", norm(&r2.speech)), (9, "get_braille (numbers)", norm(&r2.braille))];
+            for (i, name, exp) in expected2.iter() {
+                if let Some((_, got)) = round.get(*i) {
+                    if got != exp {
+                        s.violation_g(
+                            "recovery-incomplete",
+                            format!("{} differs from fresh session after {} of {}", name, self.last_repair, self.last_fault),
+                            format!("{} differs from fresh session after {} of {}", name, self.last_repair, self.last_fault.split(' ').last().unwrap_or("")),
+                            format!("session: {}\nfresh session: {}\nprefs given to the fresh session: {:?}", got.short(), exp.short(), prefs),
+                        );
+                        return;
+                    }
+                }
+            }
+        } else {
+            s.violation(
+                "recovery-incomplete",
+                format!("set_mathml fails after {} of {}", self.last_repair, self.last_fault),
+                format!("round '{}': {}", tag, round.get(7).map(|(_, r)| r.short()).unwrap_or_default()),
+            );
+            return;
         }
         s.probe("equals_fresh_session");
     }
@@ -705,7 +757,7 @@ pub fn random_trace(seed: u64, ctx: &Arc<ExecCtx>, reachable: &BTreeMap<String, 
                 t.injections.push(Injection {
                     session: 0,
                     step,
-                    sub: rng.range(4, 10),
+                    sub: rng.range(4, 13),
                     nth: rng.range(1, 6),
                     kind: rng.pick(&[InjectKind::ReadEio, InjectKind::ReadEacces, InjectKind::ReadNotFound, InjectKind::MtimeUnavailable]).clone(),
                     sticky: rng.chance(0.5),
